@@ -225,3 +225,8 @@ package client
 //@ field[C15.discipline] client.clientStream.protected.eErr guarded_by protected.Mutex
 //@ field[C15.discipline] client.clientStream.protected.rErr guarded_by protected.Mutex
 //@ field[C15.discipline] client.clientStream.protected.trailer guarded_by protected.Mutex
+
+// constructor: API precondition; objinv(result) is proved at its return
+//@ func client.NewRpcMultiplexer
+//@   requires rw != nil
+//@   ensures[C13.constructed C01.constructed C14.constructed C20.constructed] result != nil && result.rw == rw
